@@ -140,6 +140,23 @@ fn judge_truth(col: &mut Collector, r: &mut Rng, lat: f64, lon: f64, displace: b
 
 pub fn run(ctx: &Ctx) -> i32 {
     let mut col = Collector::new();
+    if let Some(path) = ctx.flag("--replay") {
+        let v: serde_json::Value = std::fs::read_to_string(&path).ok().and_then(|t| serde_json::from_str(&t).ok()).unwrap_or(json!({}));
+        let c = |k: &str| -> Option<Cpr> {
+            let o = &v["input"][k];
+            Some(Cpr { odd: o["odd"].as_bool()?, yz: o["yz"].as_u64()? as u32, xz: o["xz"].as_u64()? as u32 })
+        };
+        let (Some(a), Some(b)) = (c("first"), c("second")) else {
+            println!("INCONCLUSIVE property=C05 the replay file holds no pair");
+            return 2;
+        };
+        let truth = v["input"]["truth"].as_array().and_then(|t| Some((t.first()?.as_f64()?, t.get(1)?.as_f64()?)));
+        judge_pair(&mut col, a, b, truth, "replay");
+        println!("replay first={a:?} second={b:?} reference={:?} observed={:?}", cpr::decode_global(a, b), rcpr::get_position((&alt(a), &alt(b))));
+        col.sample(v["input"].clone());
+        let info = ctx.info("exploration", "replay of one recorded pair", &[], 1);
+        return crate::collect::finish(&info, &col, 1, 2, false, json!({"replay_of": path}));
+    }
     // (a) zone latitude sweep: every reachable even / odd latitude as the true latitude
     let stride = ctx.q(16u64, 1);
     let c = par_units(ctx, "c05-zones", 2 * 60 * 128, |i, r, col, slot| {
